@@ -866,7 +866,7 @@ func witnesses() []witness {
 			{Name: "doc", Rels: []scen.RelDef{
 				{Name: "blocked", RW: scen.This(), Restr: []scen.Restr{scen.RObj("user")}},
 				{Name: "viewer", RW: scen.Diff(scen.This(), scen.Comp("blocked")), Restr: []scen.Restr{scen.RObj("user")}},
-			}}}, Tuples: ts}, []Req{{User: "user:a", Type: "doc", Rel: "viewer", Chunk: 100, Procs: 3, Buf: 128, Barrier: 240}}})
+			}}}, Tuples: ts}, []Req{{User: "user:a", Type: "doc", Rel: "viewer", Chunk: 100, Procs: 3, Buf: 128, Barrier: 150}}})
 	}
 	return out
 }
